@@ -323,9 +323,11 @@ CLAIMS["C18"] = {
 NOT_APPLICABLE.pop("C18", None)
 
 PROPS["C04"] = {
-    "quick": [{"name": "lookahead", "harnesses": ["c04_lookahead_split_sell_exact_ratio", "c04_lookahead_split_sell_any_ratio"],
-               "jobs": 2, "cbmc_args": SMALL, "mem_gb": 28, "harness_timeout_s": 2400},
-              {"name": "steps", "harnesses": ["c01_sell_a0_m1", "c01_roc_a0_m1", "c01_split_a0_m7", "c01_sfla_a2_m7"],
+    "quick": [{"name": "lookahead", "harnesses": ["c04_lookahead_split_sell_exact_ratio"],
+               "jobs": 1, "cbmc_args": SMALL, "mem_gb": 28, "harness_timeout_s": 2400},
+              {"name": "lookahead-known", "harnesses": ["c04_lookahead_split_sell_any_ratio"],
+               "jobs": 1, "cbmc_args": SMALL, "mem_gb": 28, "harness_timeout_s": 2400},
+              {"name": "steps", "harnesses": ["c01_sell_a0_m1", "c01_roc_a2_m7", "c01_split_a0_m7", "c01_sfla_a2_m7"],
                "jobs": 4}],
     "thorough": [{"name": "lookahead", "harnesses": ["c04_lookahead_split_sell_exact_ratio", "c04_lookahead_split_sell_any_ratio",
                                                     "c02_w_otherbuy_sale_sell"],
@@ -355,9 +357,9 @@ NOT_APPLICABLE.pop("C04", None)
 
 PROPS["C20"] = {
     "quick": [{"name": "chunks", "harnesses": ["c20_page_chunks_cover_every_page_once_or_more"], "jobs": 1,
-               "features": "pdf_parse", "cbmc_args": BIG}],
+               "features": "pdf_parse", "cbmc_args": SMALL, "mem_gb": 28}],
     "thorough": [{"name": "chunks", "harnesses": ["c20_page_chunks_cover_every_page_once_or_more"], "jobs": 1,
-                  "features": "pdf_parse", "cbmc_args": BIG}],
+                  "features": "pdf_parse", "cbmc_args": SMALL, "mem_gb": 28}],
     "functions": ["peripheral::pdf::LazyPageTextVec::safe_page_chunks_with_remainder_pn"],
     "bounds": ("documents of 0..4 pages; two hint groups of two page numbers each, every number symbolic in 0..6 (so 0, "
                "out-of-range numbers and duplicates are inside); unwind 6"),
@@ -373,3 +375,30 @@ CLAIMS["C20"] = {
     "design_ref": "DESIGN.md 0, 5 C20",
 }
 NOT_APPLICABLE.pop("C20", None)
+
+PROPS["C05"] = {
+    "quick": [{"name": "rounding", "harnesses": ["c05_effective_cent_rounding_never_panics"], "jobs": 1, "cbmc_args": BIG}],
+    "thorough": [{"name": "rounding", "harnesses": ["c05_effective_cent_rounding_never_panics"], "jobs": 1, "cbmc_args": BIG},
+                 {"name": "amount", "harnesses": ["c05_tiny_loss_does_not_panic"], "jobs": 1, "cbmc_args": SMALL, "mem_gb": 28,
+                  "timeout_s": 12000, "harness_timeout_s": 10000}],
+    "functions": ["util::math::{c_maybe_round_to_effective_cent,maybe_round_to_effective_cent,round_to_cent}",
+                  "ConstrainedDecimal::<Neg|Pos>::try_from",
+                  "every other claimed check also has unwrap/expect/assert!/panic! reachability on for the functions it encodes"],
+    "bounds": ("amounts +/- m x 10^-s, m 1..60000, s 0..12 (cents down to the residue of a division); thorough: the same "
+               "through get_delta_superficial_loss_info on a 2-row history"),
+    "outside": ("'whatever the bytes': CSV text, option strings, spreadsheets and PDF text (csv-core DFA, regex, clap, time "
+                "format parser are not executable under CBMC at useful sizes); magnitudes up to 10^12 with 10 decimals "
+                "exceed the 62-bit model mantissa; rust_decimal-internal overflow and scale exhaustion are invisible to "
+                "the model"),
+}
+CLAIMS["C05"] = {
+    "text": ("Bounded model checking of panic-freedom where the post-parse core takes arbitrary computed values: the "
+             "effective-cent rounding applied to every denied loss (negative and positive amounts from cents down to "
+             "1e-12) never trips its constraint unwrap and obeys the rounding rule. In every other claimed check "
+             "unwrap/expect/assert!/panic!/index reachability is on, so C01-C04, C06-C08, C10, C11, C15-C18, C20 double "
+             "as panic-freedom checks for the functions they encode."),
+    "note": (TRUSTED + "The byte-level front ends (CSV, options, spreadsheets, PDF text) and full numeric ranges are "
+             "outside the check."),
+    "design_ref": "DESIGN.md 0, 5 C05",
+}
+NOT_APPLICABLE.pop("C05", None)
